@@ -7,6 +7,16 @@ use serde_json::Value;
 
 pub fn check(name: &str, case: &Value, v: &Violation) -> bool {
     match name {
+        "allof_member_is_oneof" => case.get("members").and_then(|m| m.as_array()).map(|m| m.iter().any(|x| x.get("oneOf").is_some())).unwrap_or(false),
+        "allof_required_but_forbidden" => {
+            let ms: Vec<&Value> = case.get("members").and_then(|m| m.as_array()).map(|m| m.iter().collect()).unwrap_or_default();
+            ms.iter().any(|closed| {
+                closed.get("additionalProperties") == Some(&Value::Bool(false))
+                    && ms.iter().any(|other| {
+                        other.get("required").and_then(|r| r.as_array()).map(|r| r.iter().filter_map(|x| x.as_str()).any(|q| closed.get("properties").and_then(|p| p.get(q)).is_none())).unwrap_or(false)
+                    })
+            })
+        }
         "display_claim_on_constrained_string" => v.detail.contains("has_impl(Display)") && any_schema_node(case, &mut |o| o.contains_key("minLength") || o.contains_key("maxLength") || o.contains_key("pattern")),
         "date_time_native" => any_schema_node(case, &mut |o| o.get("format") == Some(&Value::String("date-time".into()))),
         "property_default_on_inline_struct" => case.pointer("/extra/schema/type") == Some(&Value::String("object".into())) && case.pointer("/extra/schema/properties").is_some() && case.pointer("/history/0/doc/definitions/Holder/properties/p/default").is_some(),
